@@ -335,7 +335,10 @@ def add_user_package(W, rng, dname, pkgname, sp, nfuncs, sid_prefix, test_file=F
                       ("pkg-var-ptr", "var %sG3 *%s" % (cap, sp["T"])), ("pkg-var-h", "var %sG4 %s" % (cap, sp["H"])),
                       ("pkg-var-secret", "var %sG5 *%s" % (cap, sp["Secret"])),
                       ("pkg-field", "type %sBox struct{ f %s; g *%s }" % (cap, sp["H"], sp["Secret"])),
-                      ("pkg-sig", "func %sSig(a %s, b *%s) *%s { return nil }" % (cap, sp["H"], sp["Secret"], sp["H"]))]:
+                      ("pkg-sig", "func %sSig(a %s, b *%s) *%s { return nil }" % (cap, sp["H"], sp["Secret"], sp["H"])),
+                      # annotated types as EMBEDDED fields: the identifier names the field and uses the type
+                      ("pkg-embed-secret", "type %sEmbS struct{ *%s }" % (cap, spl0(sp, "Secret"))), ("pkg-embed-h", "type %sEmbH struct{ %s; n int }" % (cap, spl0(sp, "H"))),
+                      ("pkg-embed-t", "type %sEmbT struct{ %s }" % (cap, spl0(sp, "T")))]:
         if rng.random() < 0.6:
             sid = "%s%s%d" % (W.wid, sid_prefix, k)
             k += 1
